@@ -24,7 +24,7 @@ def classify(prop, v, **ctx):
     v.setdefault("finding", None)
     if v.get("finding"):
         return v["finding"]
-    generic = (history_dependent_rounding_fold, inconsistent_assumptions_after_history, trig_of_inverse_trig_overflow, saturated_sigmoid_linearisation)
+    generic = (history_dependent_rounding_fold, inconsistent_assumptions_after_history, trig_of_inverse_trig_overflow, saturated_sigmoid_linearisation, float64_overflow_counterfactual)
     for fn in MATCHERS.get(prop, []) + list(generic):
         try:
             fid = fn(v, prop=prop, **ctx) if fn in generic else fn(v, **ctx)
@@ -98,6 +98,69 @@ def saturated_sigmoid_linearisation(v, prop="", text="", ref=None, **kw):
         return None
     if E.COUNTERS.get("saturated_sigmoid", 0) > before and abs(got - float(eu.v)) <= 1e-9 * max(1.0, abs(float(eu.v))):
         return f"{prop}-linearisation-of-saturated-sigmoid-is-nan"
+    return None
+
+
+def float64_overflow_counterfactual(v, prop="", text="", ref=None, ode=None, **kw):
+    """Counterfactual for extreme inputs: the numpy module generated for the same model, executed with numpy.longdouble
+    inputs (x87 extended: range 1e4932, so no intermediate of a float64-representable problem overflows), returns the
+    expected value, while with float64 inputs it does not.  Then the symbolic form is right and only the float64 range
+    of an intermediate (a square, an exponential, inf/inf, ...) of the rewritten expression is exceeded."""
+    import warnings
+
+    import numpy as np
+
+    if prop not in ("C01", "C02", "C03", "C06") or v.get("kind") != "value" or ref is None or ode is None:
+        return None
+    d = v.get("detail", {})
+    pt = v.get("_point") or d.get("point")
+    if not pt or d.get("expected") is None:
+        return None
+    fn = d.get("fn") or ("generalized_rush_larsen" if prop == "C06" else "rhs")
+    if fn not in ("rhs", "monitor_values", "explicit_euler", "generalized_rush_larsen", "hybrid_rush_larsen"):
+        return None
+    name = d.get("state") or d.get("name")
+    from ..exec.pyexec import PyModule
+    from . import common as C
+
+    opts = {}
+    if fn == "hybrid_rush_larsen":
+        opts["stiff_states"] = sorted(ref.states)
+    if d.get("delta") is not None:
+        opts["delta"] = d["delta"]
+    oc = C.py_code(ode, schemes=[fn] if fn not in ("rhs", "monitor_values") else None, **opts)
+    if not oc.ok:
+        return None
+    mod = PyModule(oc.value)
+    full = dict(ref.default_point(), **pt)
+    kindmap = "monitor" if fn == "monitor_values" else "state"
+    idx = mod.names(kindmap)
+    key = name if name in idx else next((s_ for s_, dn in ref.derivs.items() if dn == name and s_ in idx), None)
+    if key is None:
+        return None
+    tol = max(float(d.get("tol") or 0.0), 1e-9 * abs(d["expected"]))
+    res = {}
+    for dtype in (np.float64, np.longdouble):
+        sidx, pidx = mod.names("state"), mod.names("parameter")
+        s_ = np.zeros(len(sidx), dtype=dtype)
+        p_ = np.zeros(len(pidx), dtype=dtype)
+        for n_, i_ in sidx.items():
+            s_[i_] = full[n_]
+        for n_, i_ in pidx.items():
+            p_[i_] = full[n_]
+        t_ = dtype(full["t"])
+        args = [t_, s_, p_] if fn in ("rhs", "monitor_values") else [s_, t_, dtype(d.get("dt") or 0.0), p_]
+        try:
+            with warnings.catch_warnings():
+                warnings.simplefilter("ignore")
+                with np.errstate(all="ignore"):
+                    res[dtype] = float(np.asarray(mod.ns[fn](*args))[idx[key]])
+        except Exception:
+            return None
+    ok64 = abs(res[np.float64] - d["expected"]) <= tol
+    okld = abs(res[np.longdouble] - d["expected"]) <= tol
+    if okld and not ok64:
+        return f"{prop}-float64-overflow-of-an-intermediate-of-the-rewritten-expression"
     return None
 
 
@@ -480,6 +543,9 @@ def c06_matchers(v, text="", ode=None, ref=None, code=None, **kw):
     exc = d.get("exc", "") or ""
     if v.get("kind") == "generation_raises" and ("_print_Derivative" in exc or "_print_Subs" in exc or "Derivative" in exc or "Subs" in exc) and ref is not None and own_state_under_floor_mod(ref):
         return "C06-derivative-of-floor-mod-unprintable"
+    if v.get("kind") == "raises" and any(t in exc for t in HUGE_INT_TEXTS) and (has_huge_int_literal(text) or int_arithmetic_exceeds_int64(code)):
+        # the linearisation of c**x is c**x*log(c): the literal reaches a numpy / jax function only in the scheme
+        return "C06-huge-int-literal-in-numpy-call"
     if v.get("kind") == "value" and ref is not None and v.get("_point") and "ContinuousConditional" in text and d.get("branch_expected") == "rl":
         # the emitted linearisation of a saturated sigmoid is inf/inf = nan, |nan| > delta is false, the step is the Euler step
         from ..refmodel import evalref as E
